@@ -209,26 +209,44 @@ def spelling_guard_rule(ctx, rule):
     if not fv:
         rep.fail(rule, "anchor::from_value", "PoeticNumberLiteralTemplate::from_value not found")
         return
+    # outcome tables by KIND, whatever idiom the guard is written in
+    hps = F.fn(MOD + "has_poetic_spelling")
     n = 0
-    for fn, bi, t in common.who_calls(F, lambda c: c["def"] == fv[0].path):
-        if fn.in_test_file():
-            continue
+    users = sorted({common.top_fn(F, fn).path for fn, bi, t in common.who_calls(F, lambda c: c["def"] == fv[0].path) if not fn.in_test_file()})
+    for up in users:
+        fn = F.fn(up)
         n += 1
         rep.analysed(fn)
-        ok, why = False, "the call is not inside a closure run by bool::then(has a poetic spelling)"
-        if fn.kind == "closure":
-            use = _closure_use(F, fn)
-            if use and is_callee(use[2], "core::bool::<impl bool>::then"):
-                parent = use[0]
-                srcs = [callee_def(parent.term(d[1])) for d, _ in origins(parent, use[2]["args"][0]) if d[0] == "call"]
-                guard_fn = F.fn(srcs[0]) if srcs else None
-                if guard_fn is not None:
-                    names = {tt["callee"].get("name") for b in F.with_closures(guard_fn) for bb, tt in b.calls() if "indirect" not in tt["callee"]}
-                    if {"is_finite", "is_sign_positive"} <= names:
-                        ok, why = True, ""
-                    else:
-                        why = "the guard %s does not require a finite, non-negative value (%s)" % (guard_fn.path, sorted(x for x in names if x))
-        rep.ob(rule, "numeric-suggestion-guarded::%s" % common.top_fn(F, fn).path, ok, why, fn.loc(t["line"]), how="only for finite, non-negative values")
+
+        def m_guard(I_, f, st, t, args, depth):
+            yield kc_(True), None, ((("spellable",), "T"),)
+            yield kc_(False), None, ((("spellable",), "F"),)
+
+        def m_from_value(I_, f, st, t, args, depth):
+            yield ("call", "from_value", tuple(kind._short(a_) for a_ in args)), None, ((("from_value",), "1"),)
+        from ..kind import c as kc_
+        guards_ = [callee_def(t) for b in F.with_closures(fn) for bi, t in b.calls() if F.fn(callee_def(t) or "") is not None and F.ty(F.fn(callee_def(t)).d["ret"]).s == "bool" and (callee_def(t) or "").startswith(MOD)]
+        ok, why = False, ""
+        if not guards_:
+            why = "%s builds the poetic words without asking whether the value has a poetic spelling" % up
+        else:
+            I_ = kind.Interp(F, models={guards_[0]: m_guard, fv[0].path: m_from_value})
+            args_ = [("sym", "a%d" % i) for i in range(1, fn.argc + 1)]
+            rows = set()
+            for o in I_.run(fn, args_):
+                g = [c_[1] for c_ in o.conds if c_[0] == ("spellable",)]
+                used = any(c_[0] == ("from_value",) for c_ in o.conds)
+                some = is_e(o.ret, OPT) and o.ret[2] == "Some"
+                none = is_e(o.ret, OPT) and o.ret[2] == "None"
+                rows.add((g[0] if g else "-", used, "Some" if some else ("None" if none else kt.summ(o.ret))))
+            ok = rows == {("T", True, "Some"), ("F", False, "None")} and not I_.incomplete
+            why = "" if ok else "%s yields %s; the rule: a suggestion (built from from_value) exactly when the value has a poetic spelling, nothing otherwise" % (up, sorted(rows))
+            gf = F.fn(guards_[0])
+            if ok and gf is not None:
+                names = {tt["callee"].get("name") for b in F.with_closures(gf) for bb, tt in b.calls() if "indirect" not in tt["callee"]}
+                if not {"is_finite", "is_sign_positive"} <= names:
+                    ok, why = False, "the guard %s does not require a finite, non-negative value (%s)" % (gf.path, sorted(x for x in names if x))
+        rep.ob(rule, "numeric-suggestion-guarded::%s" % up, ok, why, fn.loc(), how="suggestion iff finite, non-negative (sign bit clear)")
     rep.floor(rule, n, 1, "uses of from_value")
     ss = [f for p, f in F.fns.items() if p.startswith(MOD + "string_suggestion_payload") and f.kind != "closure"]
     if not ss:
@@ -236,20 +254,22 @@ def spelling_guard_rule(ctx, rule):
     else:
         fn = ss[0]
         rep.analysed(fn)
-        cont = [(bi, t) for bi, t in fn.calls() if t["callee"].get("name") == "contains" and "indirect" not in t["callee"]]
-        thens = [(bi, t) for bi, t in fn.calls() if is_callee(t, "core::bool::<impl bool>::then")]
-        ok = len(cont) == 1 and len(thens) == 1 and (cont[0][1]["args"][1].get("const") or {}).get("char") == "\n"
-        if ok:
-            # then(!contains('\n'))
-            neg = False
-            for d, p in origins(fn, thens[0][1]["args"][0]):
-                if d[0] == "op" and fn.stmts(d[1])[d[2]]["rv"].get("un") == "not":
-                    neg = True
-            ok = neg and thens[0][1]["dest"]["l"] == 0
-        rep.ob(rule, "string-suggestion-guarded", ok, "" if ok else "a `says` suggestion can be made for a string containing a line break (a poetic string ends at the end of the line)", fn.loc(), how="(!value.contains('\\n')).then(..)")
+        from ..kind import c as kc_
 
-
-
+        def m_contains(I_, f, st, t, args, depth):
+            pat = args[1] if len(args) > 1 else None
+            yield kc_(True), None, ((("contains", kind._short(pat)), "T"),)
+            yield kc_(False), None, ((("contains", kind._short(pat)), "F"),)
+        I_ = kind.Interp(F, models={"core::str::<impl str>::contains": m_contains, "std::str::<impl str>::contains": m_contains})
+        rows = set()
+        for o in I_.run(fn, [("sym", "var"), ("sym", "val")]):
+            g = [(c_[0][1], c_[1]) for c_ in o.conds if isinstance(c_[0], tuple) and c_[0] and c_[0][0] == "contains"]
+            rows.add((tuple(g), "Some" if is_e(o.ret, OPT) and o.ret[2] == "Some" else ("None" if is_e(o.ret, OPT) and o.ret[2] == "None" else kt.summ(o.ret))))
+        NL = ("c", "\n")
+        want = {(((NL, "T"),), "None"), (((NL, "F"),), "Some")}
+        ok = rows == want and not I_.incomplete
+        rep.ob(rule, "string-suggestion-guarded", ok, "" if ok else "a `says` suggestion is not made exactly for strings without a line break (a poetic string ends at the end of the line): %s" % sorted(rows, key=str), fn.loc(),
+               how="contains('\\n') -> None, otherwise Some(..)")
 
 
 def text_from_cast_rule(ctx, rule, scope=None, min_fns=20):
